@@ -66,10 +66,10 @@ Proof.
     try (destruct (filter_res _ fr) as [fr'| |] eqn:Ef; cbn [bind] in E; try discriminate E;
          apply (IH fr' out); [|exact E]; eapply wf_filter_res; [exact H|exact Ef]).
 Qed.
-Lemma wf_find_positions fuel root ps items : wf_shape root = true -> find_positions fuel root None ps = Ok items ->
+Lemma wf_find_positions root ps items : wf_shape root = true -> find_positions root None ps = Ok items ->
   forallb wf_shape items = true.
 Proof.
-  intros Hr E. destruct fuel as [|f]; cbn [find_positions] in E; [discriminate E|].
+  intros Hr E. unfold find_positions, find_positions_with in E.
   assert (Hs : forallb wf_shape [root] = true) by (cbn [forallb]; rewrite Hr; reflexivity).
   destruct ps as [|p r]; cbn [bind] in E; [eapply wf_walk; [exact Hs|exact E]|].
   destruct p; cbn [bind] in E; try discriminate E; eapply wf_walk; try exact E; exact Hs.
@@ -83,9 +83,9 @@ Proof.
 Qed.
 Lemma wf_select_items root ps m its : wf_shape root = true -> select_items_t root ps m = Ok its -> forallb wf_shape its = true.
 Proof.
-  unfold select_items_t. generalize PATH_FUEL. intros fuel Hr E.
-  destruct (find_positions fuel root None ps) as [items| |] eqn:F; cbn [bind] in E; try discriminate E.
-  pose proof (wf_find_positions _ _ _ _ Hr F) as Hi.
+  unfold select_items_t. intros Hr E.
+  destruct (find_positions root None ps) as [items| |] eqn:F; cbn [bind] in E; try discriminate E.
+  pose proof (wf_find_positions _ _ _ Hr F) as Hi.
   destruct (is_predicate ps); injection E as <-; [reflexivity|]. apply wf_mode_items. exact Hi.
 Qed.
 
@@ -170,8 +170,8 @@ Lemma select_t_cut root ps m pre :
   | Panic => select_items_t root ps m = Panic
   end.
 Proof.
-  unfold select_t, select_items_t. generalize PATH_FUEL. intros fuel.
-  destruct (find_positions fuel root None ps) as [items| |]; cbn [bind]; try reflexivity.
+  unfold select_t, select_items_t.
+  destruct (find_positions root None ps) as [items| |]; cbn [bind]; try reflexivity.
   destruct (is_predicate ps).
   - exists [], (enc (VBool match items with [] => false | _ => true end)). repeat split.
   - pose proof (mode_cut m pre items) as C.
